@@ -20,7 +20,7 @@ RULE = ('1-D time-series files (1-6 records, 1-4 dependent variables incl. names
         'compared line by line with the Lean writer model; the file read back by the library (explicit format and '
         'auto-detection) is compared with the Lean reader model applied to those lines; oracle: names/order, units, '
         'codes, masks, values to 7 significant digits, declared counts, second write/read cycle; non-trivial = at '
-        'least 2 records, 2 dependent variables, one missing cell and one attribute')
+        'least 2 records, 2 dependent variables, one missing cell and one attribute; units containing parentheses; two files of 999-2001 records per run')
 ASSUMPTIONS = ['the text of a number (%.6e) and its parsing by numpy.genfromtxt are outside the model: every written value is '
                'checked numerically against the source to 7 significant digits',
                'attribute keys without ":" and values without leading/trailing white space or line breaks; unmasked values do not equal the missing code']
